@@ -171,9 +171,10 @@ Definition rtas (r : rule) (ch : list node) : list node := rtas_aux r [] ch.
 Fixpoint rtas_rec_node (r : rule) (n : node) : node :=
   match n with
   | Tok _ _ => n
-  | Tree r' ch => Tree r' (map (rtas_rec_node r) (rtas r ch))
+  | Tree r' ch => Tree r' (rtas r (map (rtas_rec_node r) ch))
   end.
-Definition rtas_rec (r : rule) (ch : list node) : list node := map (rtas_rec_node r) (rtas r ch).
+(* (the removal looks at rules only and the recursion keeps rules, so recursing first is the same) *)
+Definition rtas_rec (r : rule) (ch : list node) : list node := rtas r (map (rtas_rec_node r) ch).
 
 (* insert_before_or_at_end(tree, rule, nodes) *)
 Fixpoint ins_before (r : rule) (nodes : list node) (ch : list node) : list node * bool :=
